@@ -81,7 +81,18 @@ def parse_out(r: str):
     return dl, int(kv["closed"]), int(kv["spin"]), int(kv["resid"]), kv.get("died", "")
 
 
+class _Enough(Exception):
+    pass
+
+
 def run_cases(res: Result, rng: random.Random, tier: str, fails: list):
+    try:
+        return _run_cases(res, rng, tier, fails)
+    except _Enough as e:
+        return e.args[0]
+
+
+def _run_cases(res: Result, rng: random.Random, tier: str, fails: list):
     from realnode import frame_real
     goods = good_messages(rng)
     small = [m for m in goods if len(m) <= 120]
@@ -92,6 +103,8 @@ def run_cases(res: Result, rng: random.Random, tier: str, fails: list):
         line = "FRAME " + " ".join(c.hex() for c in chunks)
         if line in seen:
             return
+        if res.extra.get("search") and len(fails) >= 3:
+            raise _Enough((lines, reals))          # a search stops at the first few failing inputs
         seen.add(line)
         r = frame_real(chunks)
         lines.append(line)
@@ -234,6 +247,7 @@ def search(res: Result, seed: int, broken) -> list:
     rng = random.Random(seed * 7919 + 41)
     fails: list = []
     r2 = Result(PROP, "thorough", seed)
+    r2.extra["search"] = True
     run_cases(r2, rng, "thorough", fails)
     res.extra["search_cases"] = r2.cases
     return fails
